@@ -49,6 +49,8 @@ class Interp:
         self.stats = {"calls_inlined": 0, "ext_calls": 0, "stores": 0, "loads": 0, "allocs": 0}
         self.functions_seen = set()
         self.persistent = {}            # oid -> Obj for 'global' region objects (class attributes, defaults)
+        self.typestate_mode = False     # C14: loops run at least once; all-elements loops update summaries strongly
+        self.loop_iters = {}            # loop id -> iterable value
 
     # ============================================================================================ allocation
     def alloc(self, cls, region, site, label=None, key=None) -> Obj:
@@ -226,6 +228,13 @@ class Interp:
     def write_field(self, base: Val, name: str, value: Val, node, kind="rebind"):
         targets = self.store_targets(base, "." + name)
         strong = len(base.refs) == 1 and not base.locs
+        if strong and self.typestate_mode:
+            so = self.obj(next(iter(base.refs)))
+            if so.owner is not None and so.owner[1] == "[*]":
+                # one abstract object for all elements: strong only inside a loop over all of them
+                strong = any(t.startswith("loopvar:") and so.owner[0] in self.loop_iters.get(
+                    int(t.split(":")[1]), Val()).refs for t in base.tags) or any(
+                    t.startswith("idx:loopvar:") for t in base.tags)
         old_refs = frozenset()
         for oid in base.refs:
             ov = self.obj(oid).fields.get(name)
